@@ -159,15 +159,16 @@ def handle_quic_packet(packet: Packet, keylog, quic_sessions: list[QuicSession],
     for session in quic_sessions:
         # first try matching connection IDs
         if header_type == QuicHeaderType.LONG:
-            if dcid in session.client_cids or dcid in session.server_cids:
+            # a zero-length connection id cannot identify a session
+            if len(dcid) > 0 and (dcid in session.client_cids or dcid in session.server_cids):
                 session.handle_packet(packet, dcid, quic_version)
                 return
         else:
             # match by checking all known cid lengths for session
-            for cid in session.client_cids | session.server_cids:
-                if cid == packet_payload[1:1 + len(cid)]:
-                    session.handle_packet(packet, cid, quic_version)
-                    return
+            cid = session.match_short_header_cid(packet)
+            if cid is not None:
+                session.handle_packet(packet, cid, quic_version)
+                return
 
         # check matching ip address and port for zero length cids
         if session.matches_session_dgram(packet.ip_src, packet.ip_dst, packet.sport, packet.dport):
